@@ -61,8 +61,22 @@ fn value_of(coin: u64, a: u64, b: u64) -> Value {
     v
 }
 
+thread_local! {
+    /// boundary mode: the lovelace of table entry 2 for this execution (0 = table value)
+    static OVERRIDE2: std::cell::Cell<u64> = std::cell::Cell::new(0);
+}
+const DELTAS: [u64; 7] = [0, 1, 100, 3_000, 6_500, 9_000, 12_500];
+fn coin(i: usize) -> u64 {
+    let o = OVERRIDE2.with(|c| c.get());
+    if i == 2 && o > 0 {
+        o
+    } else {
+        TABLE[i].coin
+    }
+}
+
 fn utxo(i: usize) -> TransactionUnspentOutput {
-    let e = &TABLE[i];
+    let e = Entry { coin: coin(i), a: TABLE[i].a, b: TABLE[i].b };
     let addr = if i % 2 == 0 { enterprise_addr(i % 4) } else { base_addr(i % 4, 0) };
     TransactionUnspentOutput::new(&crate::builder::op_outpoint(i), &TransactionOutput::new(&addr, &value_of(e.coin, e.a, e.b)))
 }
@@ -107,7 +121,7 @@ fn inputs_of(tb: &TransactionBuilder) -> Option<BTreeSet<(Vec<u8>, u64)>> {
 fn table_sum(idx: &BTreeSet<usize>) -> (u128, u128, u128) {
     let mut s = (0u128, 0u128, 0u128);
     for i in idx {
-        s.0 += TABLE[*i].coin as u128;
+        s.0 += coin(*i) as u128;
         s.1 += TABLE[*i].a as u128;
         s.2 += TABLE[*i].b as u128;
     }
@@ -150,8 +164,29 @@ fn sc_select(max_offered: usize) -> impl Fn(&mut Ctx) + Sync {
         if reversed {
             offered.reverse();
         }
-        ctx.observe(&(si, oi, ii, pre_kind, mask, reversed));
-        ctx.set_sample(|| format!("{} ; outputs#{} ; implicit {} ; pre-existing {:?} ; offered {:?}", strategy_name(si), oi, IMPLICIT[ii], pre, offered));
+        // boundary mode: entry 2 is worth exactly what is still missing before selection (outputs +
+        // the minimum fee of the builder as it stands) plus a small delta, so that whether the fee of
+        // the selected inputs themselves is accounted for decides the outcome
+        OVERRIDE2.with(|c| c.set(0));
+        let bd = ctx.choose_free(1 + DELTAS.len());
+        if bd > 0 {
+            if pre.contains(&2) || !offered.contains(&2) {
+                return;
+            }
+            let tb0 = base_builder(oi, ii, &pre);
+            let held: BTreeSet<usize> = pre.iter().cloned().collect();
+            let v = match required(&tb0) {
+                Some(need) => (need.0 + DELTAS[bd - 1] as u128).saturating_sub(table_sum(&held).0 + IMPLICIT[ii] as u128),
+                None => return,
+            };
+            if v < 1_000_000 || v > 40_000_000 {
+                return;
+            }
+            OVERRIDE2.with(|c| c.set(v as u64));
+            ctx.hit("boundary-valued-utxo");
+        }
+        ctx.observe(&(si, oi, ii, pre_kind, mask, reversed, bd));
+        ctx.set_sample(|| format!("{} ; outputs#{} ; implicit {} ; pre-existing {:?} ; offered {:?} ; entry2 {}", strategy_name(si), oi, IMPLICIT[ii], pre, offered, coin(2)));
         let mut tb = base_builder(oi, ii, &pre);
         let need_before = required(&tb);
         let pre_set: BTreeSet<usize> = pre.iter().cloned().collect();
@@ -170,7 +205,7 @@ fn sc_select(max_offered: usize) -> impl Fn(&mut Ctx) + Sync {
         });
         ctx.observe(&calls);
         ctx.compared();
-        let what = |tb: &TransactionBuilder| format!("{} outputs#{} implicit {} pre-existing {:?} offered {:?} -> inputs {:?}", strategy_name(si), oi, IMPLICIT[ii], pre, offered, inputs_of(tb).map(|s| s.iter().map(|o| crate::builder::WORLD.with(|_| (0..8).find(|i| &crate::builder::op_outpoint_key(*i) == o))).collect::<Vec<_>>()));
+        let what = |tb: &TransactionBuilder| format!("{} outputs#{} implicit {} pre-existing {:?} offered {:?} entry2={} -> inputs {:?}", strategy_name(si), oi, IMPLICIT[ii], pre, offered, coin(2), inputs_of(tb).map(|s| s.iter().map(|o| crate::builder::WORLD.with(|_| (0..8).find(|i| &crate::builder::op_outpoint_key(*i) == o))).collect::<Vec<_>>()));
         if pre_kind == 2 {
             ctx.hit("offered-overlaps-pre-existing");
         }
@@ -264,8 +299,8 @@ fn sc_select(max_offered: usize) -> impl Fn(&mut Ctx) + Sync {
                         let needed_more = held_before.0 + (IMPLICIT[ii] as u128) < nb.0;
                         if needed_more && !selected.is_empty() {
                             ctx.hit("largest-first-had-to-select");
-                            let min_sel = selected.iter().map(|i| TABLE[*i].coin).min().unwrap();
-                            let max_unsel = offered.iter().filter(|i| !selected.contains(i)).map(|i| TABLE[*i].coin).max();
+                            let min_sel = selected.iter().map(|i| coin(*i)).min().unwrap();
+                            let max_unsel = offered.iter().filter(|i| !selected.contains(i)).map(|i| coin(*i)).max();
                             if let Some(mu) = max_unsel {
                                 if mu > min_sel {
                                     ctx.violation(format!("{}/LargestFirst/not-in-non-increasing-order", P), format!("selected an input of {} while one of {} was left ; {}", min_sel, mu, what(&tb)));
@@ -273,7 +308,7 @@ fn sc_select(max_offered: usize) -> impl Fn(&mut Ctx) + Sync {
                             }
                             // stops as soon as covered: without its smallest pick it is not covered
                             if selected.len() >= 1 {
-                                let drop = *selected.iter().min_by_key(|i| (TABLE[**i].coin, std::cmp::Reverse(**i))).unwrap();
+                                let drop = *selected.iter().min_by_key(|i| (coin(**i), std::cmp::Reverse(**i))).unwrap();
                                 let mut fewer = base_builder(oi, ii, &pre);
                                 let mut ib = TxInputsBuilder::new();
                                 let mut rest: BTreeSet<usize> = pre_set.clone();
@@ -315,12 +350,12 @@ pub fn scenario(name: &str, tier: Tier) -> Option<BoxedScenario> {
 pub fn run(tier: Tier, seed: u64) -> i32 {
     let mut rep = Report::new(P, tier, seed);
     let n = if tier.thorough() { 7 } else { 6 };
-    rep.rule = format!("4 strategies x 5 output configurations (incl. two identical outputs) x 3 implicit inputs x 3 pre-existing-input situations x every offered subset of size <= {} of a 7-entry table x offered order as listed / reversed x EVERY sequence of RNG answers (selection, improvement swaps, fee top-up); distinct = distinct (scenario, RNG sequence, resulting input set)", n);
+    rep.rule = format!("4 strategies x 5 output configurations (incl. two identical outputs) x 3 implicit inputs x 3 pre-existing-input situations x every offered subset of size <= {} of a 7-entry table x offered order as listed / reversed x (table values | entry 2 worth exactly (outputs + min fee before selection - held) + delta for delta in 0,1,100,3000,6500,9000,12500) x EVERY sequence of RNG answers (selection, improvement swaps, fee top-up); distinct = distinct (scenario, RNG sequence, resulting input set)", n);
     rep.bound("max_offered", serde_json::json!(n));
     rep.assume("a UTxO set is a function: every offered outpoint has one owner and one value");
     rep.assume("the left side of the coverage inequality is computed from the scenario's table by outpoint, never from the builder's own totals");
     rep.trusted_base = vec!["min_fee() and get_total_output() of the builder for the right side of the coverage inequality (their correctness is C06 / C05)".into()];
-    rep.required_hits = vec!["selection-ok", "selection-err", "covered", ">=2-selected", "rng:4+-calls", "largest-first-stopped-early", "largest-first-took-everything", "insufficient-confirmed", "offered-overlaps-pre-existing", "already-covered-before-selection"];
+    rep.required_hits = vec!["selection-ok", "selection-err", "covered", ">=2-selected", "rng:4+-calls", "largest-first-stopped-early", "largest-first-took-everything", "insufficient-confirmed", "offered-overlaps-pre-existing", "already-covered-before-selection", "boundary-valued-utxo"];
     let f = scenario("select", tier).unwrap();
     let st = explore("select", &*f, &Opts::new(seed));
     rep.add("select", "full product, RNG tree unbounded", st);
